@@ -56,6 +56,13 @@ pub enum Ev {
     /// The scanners are `Send`: each of the next n calls on the main instance (feed, poll, reset)
     /// runs on another OS thread than the one before (a fresh thread per call; the caller waits).
     Hop { n: u8 },
+    /// Each of the next n calls on the main instance is made from a destructor that runs while the
+    /// thread unwinds from an unrelated panic (`std::thread::panicking()` is true inside the call).
+    Unwinding { n: u8 },
+    /// A message object that contradicts itself is fed to the main instance: its byte getters say
+    /// `raw`, its `to_structured()` says `st`. No reference model can follow; nothing is judged
+    /// until the next reset (after which everything must be as new) or restore.
+    Liar { raw: [u8; 3], st: [u8; 3] },
     /// A third-party message object whose getter `which` (0 status byte, 1 data byte 1, 2 data
     /// byte 2) panics - a corrupt device buffer behind a checked accessor - is fed to the main
     /// instance; the host catches the panic and carries on. No message was delivered.
@@ -123,6 +130,8 @@ impl Ev {
             Ev::Snapshot => J::arr([J::s("snapshot")]),
             Ev::Restore => J::arr([J::s("restore")]),
             Ev::Hop { n } => J::arr([J::s("hop"), ji(*n)]),
+            Ev::Unwinding { n } => J::arr([J::s("unwinding"), ji(*n)]),
+            Ev::Liar { raw, st } => J::arr([J::s("feed_liar"), ji(raw[0]), ji(raw[1]), ji(raw[2]), ji(st[0]), ji(st[1]), ji(st[2])]),
             Ev::FeedAbort { b, which } => J::arr([J::s("feed_abort"), ji(b[0]), ji(b[1]), ji(b[2]), ji(*which)]),
             Ev::Bulk { n, cycle } => J::arr([J::s("bulk"), ji(*n), J::arr(cycle.iter().map(|b| J::arr([ji(b[0]), ji(b[1]), ji(b[2])])))]),
             Ev::Fork { k, burst } => J::arr([
@@ -184,6 +193,8 @@ impl Ev {
             "snapshot" => Ev::Snapshot,
             "restore" => Ev::Restore,
             "hop" => Ev::Hop { n: n(1, 255)? as u8 },
+            "unwinding" => Ev::Unwinding { n: n(1, 255)? as u8 },
+            "feed_liar" => Ev::Liar { raw: [n(1, 255)? as u8, n(2, 255)? as u8, n(3, 255)? as u8], st: [n(4, 255)? as u8, n(5, 255)? as u8, n(6, 255)? as u8] },
             "feed_abort" => Ev::FeedAbort { b: [n(1, 255)? as u8, n(2, 255)? as u8, n(3, 255)? as u8], which: n(4, 2)? as u8 },
             "bulk" => {
                 let mut cycle = Vec::new();
@@ -325,6 +336,16 @@ impl Trace {
                 Ev::Hop { n } => {
                     h.b(13);
                     h.b(*n);
+                }
+                Ev::Unwinding { n } => {
+                    h.b(16);
+                    h.b(*n);
+                }
+                Ev::Liar { raw, st } => {
+                    h.b(17);
+                    for x in raw.iter().chain(st.iter()) {
+                        h.b(*x);
+                    }
                 }
                 Ev::Bulk { n, cycle } => {
                     h.b(15);
